@@ -249,8 +249,21 @@ XalanEXSLTFunctionPadding::execute(
     const XalanDOMString&               thePaddingString = theSize == 2 ? args[1]->str(executionContext) : m_space;
     const XalanDOMString::size_type     thePaddingStringLength = thePaddingString.length();
 
-    if (theLength == 0.0 || thePaddingStringLength == 0)
+    // A length that is NaN, negative or zero gives the empty string.  The
+    // comparison is written so that NaN fails it.
+    if (!(theLength >= 1.0) || thePaddingStringLength == 0)
     {
+        return executionContext.getXObjectFactory().createStringReference(s_emptyString);
+    }
+    else if (theLength >= 2147483648.0)
+    {
+        // Infinity, or a length that cannot be converted to a string
+        // length, is an error and not something to try to allocate.
+        generalError(
+            executionContext,
+            context,
+            locator);
+
         return executionContext.getXObjectFactory().createStringReference(s_emptyString);
     }
     else
